@@ -48,10 +48,13 @@ class SimOutputStream(OutputStream):
         self.faults_fired = 0
         self._closed = False
         self.after_write = None
+        self.max_calls = 200000
 
     def write(self, string):
         idx = self.n_calls
         self.n_calls += 1
+        if self.n_calls > self.max_calls:
+            raise Runaway("more than %d writes to %s" % (self.max_calls, self.name))
         if self.on_write is not None:
             self.on_write(self, string)
         if self._closed or (self.close_after is not None and len(self.writes) >= self.close_after):
@@ -87,6 +90,11 @@ class SimOutputStream(OutputStream):
 
     def data(self):
         return "".join(d for _, d in self.writes)
+
+
+class Runaway(BaseException):
+    """A simulated stream saw more calls than any bounded scenario can make: the code under test
+    is in a loop that never reaches a read.  BaseException, so retry loops cannot swallow it."""
 
 
 class AskedForever(BaseException):
